@@ -180,8 +180,15 @@ func (sc c12Script) body(c *explore.Ctx) {
 					if err == io.EOF {
 						err = nil
 					}
-					if err == nil {
-						called, protIn = 1, doubles.ProtRO // (the reader copies inside the SDK: no callback of ours to observe)
+					// (the reader copies inside the SDK: no callback of ours to observe; it ran iff the secret was opened)
+					opened := err == nil
+					for _, cl := range mc.Calls[from:] {
+						if strings.HasPrefix(cl.Op, "Protect(ReadOnly") && !cl.Fault {
+							opened = true
+						}
+					}
+					if opened {
+						called, protIn = 1, doubles.ProtRO
 					}
 					seen = nil
 				}
